@@ -89,7 +89,7 @@ def parseValAtom : String → Val
 partial def parseTerm (deliv : Nat → Res) : Sexp → Option Fut
   | .list [.atom "ready", .atom "ok", .atom v] => some (.ready (.ok (parseValAtom v)))
   | .list [.atom "ready", .atom "err", .atom m] => some (.ready (.err ⟨[], m⟩))
-  | .list [.atom "promise", id] => do let n ← id.nat?; pure (.promise [.idx n] (deliv n))
+  | .list [.atom "promise", id] => do let n ← id.nat?; pure (.promise n (deliv n))
   | .list [.atom "map", .atom fn, .atom tag, t] => do
     let t ← parseTerm deliv t
     match fn with
@@ -133,7 +133,7 @@ def runSteps : List Step → Fut → Store → List String → List String × St
     let (f', S', _) := poll f S
     runSteps rest f' S' (stateOf f' :: acc)
   | .fulfil id _ :: rest, f, S, acc =>
-    runSteps rest f { S with chan := S.chan ++ [[.idx id]] } (stateOf f :: acc)
+    runSteps rest f { S with chan := S.chan ++ [id] } (stateOf f :: acc)
 
 def handleComb (t : Sexp) (steps : List Sexp) : Option Sexp := do
   let steps ← steps.mapM parseStep
